@@ -83,6 +83,13 @@ struct World {
     op_of: BTreeMap<u64, u64>, // address -> op id
     held: Vec<a10::AsyncFd>,
     kinds: BTreeMap<u64, String>,
+    /// Allocation serial numbers spanned by the creation of each operation
+    /// (its state and the resources it owns).
+    created: BTreeMap<u64, (usize, usize)>,
+    /// The first submission entry of each operation (for the restart comparison).
+    first_sqe: BTreeMap<u64, abi::Sqe>,
+    /// Operations that have been re-issued at least once.
+    restarted: BTreeSet<u64>,
     /// Resources the caller owns, by result value.
     owned: BTreeMap<i64, ResObj>,
     track_res: bool,
@@ -178,6 +185,9 @@ impl World {
             op_of: BTreeMap::new(),
             held: Vec::new(),
             kinds: kinds.clone(),
+            created: BTreeMap::new(),
+            first_sqe: BTreeMap::new(),
+            restarted: BTreeSet::new(),
             owned: BTreeMap::new(),
             track_res,
             direct,
@@ -197,6 +207,7 @@ impl World {
         events::clear();
         let kind = self.kinds.get(&o).cloned().unwrap_or_default();
         let base = self.base();
+        let serial0 = alloc::current_serial();
         let obj = alloc::tracked(|| match kind.as_str() {
             "single" => OpObj::Write(Box::pin(base.write(vec![0x5a; 8]))),
             "twostep" => OpObj::SendZc(Box::pin(base.send(vec![0x6b; 8]).zc())),
@@ -211,6 +222,7 @@ impl World {
         self.addr.insert(o, new.f[0]);
         self.op_of.insert(new.f[0], o);
         self.ops.insert(o, obj);
+        self.created.insert(o, (serial0, alloc::current_serial()));
         Ok(())
     }
 
@@ -379,6 +391,12 @@ impl World {
 
     fn sq_tail(&self) -> u32 {
         simk::kernel().rings.get(&self.rfd).map_or(0, |r| r.sq_tail())
+    }
+
+    /// True if the entry of `o` now being consumed is a re-issue (the operation
+    /// was submitted before).
+    fn restart_pending(&self, o: u64) -> bool {
+        self.restarted.contains(&o)
     }
 
     fn post_params(&self) -> PostParams {
@@ -709,8 +727,9 @@ fn step(world: &mut World, act: &Value, kernel_access: &mut BTreeSet<u64>) -> Ve
     }
     for note in &notes {
         if let Note::Dangling { user_data, addr, len, when, .. } = note {
+            let reissued = world.op_of.get(&(user_data & !1)).is_some_and(|o| world.first_sqe.contains_key(o) && *when == "consume" && world.restart_pending(*o));
             div.push(Divergence {
-                tag: "C01",
+                tag: if reissued { "C09" } else { "C01" },
                 field: "kernel handed a pointer into freed memory",
                 expected: json!("allocated"),
                 observed: json!({"user_data": user_data, "addr": addr, "len": len, "when": when}),
@@ -755,6 +774,35 @@ fn step(world: &mut World, act: &Value, kernel_access: &mut BTreeSet<u64>) -> Ve
             "C02"
         };
         div.push(Divergence { tag, field: "submissions published", expected: json!(exp_subm), observed: json!(subm) });
+    }
+
+    // C09: a re-issued request is byte for byte the first one (same arguments,
+    // same resources at the same addresses).
+    {
+        let k = simk::kernel();
+        if let Some(ring) = k.rings.get(&world.rfd) {
+            let tail = ring.sq_tail();
+            let mut t = tail_before;
+            while t != tail {
+                let sqe = ring.read_sqe(t);
+                t = t.wrapping_add(1);
+                if sqe.user_data() <= 3 || sqe.opcode() == abi::OP_ASYNC_CANCEL {
+                    continue;
+                }
+                let Some(o) = world.op_of.get(&(sqe.user_data() & !1)).copied() else { continue };
+                match world.first_sqe.get(&o) {
+                    None => {
+                        world.first_sqe.insert(o, sqe);
+                    }
+                    Some(first) => {
+                        world.restarted.insert(o);
+                        if *first != sqe {
+                            div.push(Divergence { tag: "C09", field: "re-issued request differs from the first one", expected: json!(format!("{first:?}")), observed: json!(format!("{sqe:?}")) });
+                        }
+                    }
+                }
+            }
+        }
     }
 
     // Wake-ups: every waker the specification says is woken must have been invoked.
@@ -1009,6 +1057,7 @@ fn main() {
         let examined = first.as_ref().map_or(path.len(), |(si, _)| *si + 1);
         progress.set(pi as u64, path.len() as u64);
         let op_states: BTreeSet<u64> = world.addr.values().copied().collect();
+        let created: Vec<(usize, usize)> = world.created.values().copied().collect();
         let (leaks, incidents, _notes, teardown_panic) = world.finish();
         let mut records = Vec::new();
         if let Some((si, divs)) = first {
@@ -1033,7 +1082,7 @@ fn main() {
             }
             if !leaks.is_empty() {
                 // State of an operation never reclaimed: C06; anything else: C12.
-                let tag = if leaks.iter().any(|l| op_states.contains(&(l.0 as u64))) { "C06" } else { "C12" };
+                let tag = if leaks.iter().any(|l| op_states.contains(&(l.0 as u64)) || created.iter().any(|(a, b)| l.2 > *a && l.2 <= *b)) { "C06" } else { "C12" };
                 records.push(json!({"path": pi, "step": path.len(), "tag": tag, "field": "allocations never released",
                     "expected": [], "observed": leaks.iter().map(|l| json!({"size": l.1, "serial": l.2})).collect::<Vec<_>>()}));
             }
